@@ -192,6 +192,37 @@ def _monitored_cls():
     return _MON[0]
 
 
+def _global_state():
+    import torch
+    # (no getter in torch: with flush-to-zero on, a subnormal number compares equal to zero)
+    return {'flush_denormal': bool((np.array([5e-324]) == 0)[0]),
+            'default_dtype': torch.get_default_dtype(), 'grad': torch.is_grad_enabled(),
+            'np_err': dict(np.geterr()), 'cwd': os.getcwd()}
+
+
+def _restore_global_state(before):
+    """Interpreter-wide settings a simulated process changed: put them back (a new process starts with defaults)."""
+    import torch
+    changed = False
+    now = _global_state()
+    if now['flush_denormal'] != before['flush_denormal'] and before['flush_denormal'] is not None:
+        torch.set_flush_denormal(before['flush_denormal'])
+        changed = True
+    if now['default_dtype'] != before['default_dtype']:
+        torch.set_default_dtype(before['default_dtype'])
+        changed = True
+    if now['grad'] != before['grad']:
+        torch.set_grad_enabled(before['grad'])
+        changed = True
+    if now['np_err'] != before['np_err']:
+        np.seterr(**before['np_err'])
+        changed = True
+    if now['cwd'] != before['cwd']:
+        os.chdir(before['cwd'])
+        changed = True
+    return changed
+
+
 class _NoPool:
     """Stands in for the multiprocessing.Pool(1) that LayoutExtractor creates and never uses."""
 
@@ -560,7 +591,7 @@ class PfWorld:
         self.ini = write_decoder_config(cdir, dcfg, run_decoder=run_decoder, extra_sections=extra)
         if mode in ('ocr', 'cnn') or plan.get('layout_ocr'):
             os.remove(os.path.join(cdir, 'ocr.json'))
-            stubocr.ensure_engine_files(cdir, self.chars)
+            stubocr.ensure_engine_files(cdir, self.chars, scale=float(cfg.get('ocr_scale', 8.0)))
         self.in_img = self.in_xml = self.in_logits = None
         ids = [p['id'] for p in plan['pages']]
         if mode in ('ocr', 'crop', 'layout', 'cnn') or plan.get('with_images'):
@@ -632,7 +663,8 @@ class PfWorld:
         """Layout with generated logits whose line geometry matches the painted image."""
         spec = {'id': p['id'], 'regions': p.get('regions', 1),
                 'lines': [{'frames': ln.get('frames', ln.get('blocks', 4)), 'seed': ln['seed'], 'amb': ln.get('amb', 0.4),
-                           'id': ln.get('id', 'l%03d' % j), 'coords': ln.get('coords', 'std')} for j, ln in enumerate(p['lines'])]}
+                           'id': ln.get('id', 'l%03d' % j), 'coords': ln.get('coords', 'std'),
+                           'range': ln.get('range', 'std'), 'dtype': ln.get('dtype')} for j, ln in enumerate(p['lines'])]}
         lay = content.build_layout(spec, self.chars)
         h, w, geo = stubocr.page_geometry(self.img_spec(p))
         lay.page_size = (h, w)
@@ -737,6 +769,7 @@ class PfWorld:
         _random.seed(spec.get('rng_seed', 0))
         numpy.random.seed(spec.get('rng_seed', 0) % (2 ** 31))
         so, se = io.StringIO(), io.StringIO()
+        gstate = _global_state()
         import threading
         threads_before = set(threading.enumerate())
         restore_ocr = None
@@ -783,6 +816,9 @@ class PfWorld:
             self.proc = None
             if restore_ocr is not None:
                 restore_ocr[0].run_ocr = restore_ocr[1]
+            if _restore_global_state(gstate):
+                # a real process takes such interpreter-wide settings with it when it ends
+                self.res.fault('process_global_state_reset_after_process')
         p.stdout = so.getvalue()
         p.stderr = se.getvalue()
         if self.plan.get('lmdb'):
